@@ -1,2 +1,3 @@
 pub mod store;
 pub mod session;
+pub mod sync;
